@@ -6,23 +6,39 @@
 From V Require Import Base.Text C20.Model C20.Lemmas.
 
 (* every crash point (n complete operations, the next one interrupted after k chars or not started) and every
-   single failing operation leave the invariant intact; the three names must be distinct paths *)
+   single failing operation leave the invariant intact — from ANY state of the sibling paths (absent, stale files,
+   symbolic links to the file itself or elsewhere, directories); the three names must be distinct paths *)
 Theorem crash_safe : forall (tmp_of bk_of : path -> path) (f : path) (orig fmt : text),
   tmp_of f <> f -> bk_of f <> f -> tmp_of f <> bk_of f -> eqb_text orig fmt = false ->
-  forall s0 : fsstate, s0 f = Some orig ->
+  forall s0 : fsstate, s0 f = Some (File orig) ->
   forall (n k : nat) (started : bool) (st : fsstate),
     stopped_at s0 (backup_ops tmp_of bk_of f orig fmt) n k started = Some st ->
     Inv f (bk_of f) orig fmt st.
 Proof. exact crash_safe_lemma. Qed.
 Print Assumptions crash_safe.
 
-(* a run that is not interrupted ends with the formatted text in the file and the original in .bk *)
+(* a run that is not interrupted and whose siblings are not directories ends with the formatted text in the file,
+   the original in .bk and no .tmp *)
 Theorem success_post : forall (tmp_of bk_of : path -> path) (f : path) (orig fmt : text),
   tmp_of f <> f -> bk_of f <> f -> tmp_of f <> bk_of f -> eqb_text orig fmt = false ->
-  forall s0 : fsstate, s0 f = Some orig ->
-  exists st, run s0 (backup_ops tmp_of bk_of f orig fmt) = Some st /\ st f = Some fmt /\ st (bk_of f) = Some orig.
+  forall s0 : fsstate, s0 f = Some (File orig) ->
+  is_dir s0 (tmp_of f) = false -> is_dir s0 (bk_of f) = false ->
+  exists st, run s0 (backup_ops tmp_of bk_of f orig fmt) = Some st /\ st f = Some (File fmt) /\ st (bk_of f) = Some (File orig)
+             /\ st (tmp_of f) = None.
 Proof. exact success_post_lemma. Qed.
 Print Assumptions success_post.
+
+(* an operation that cannot succeed (FILE.tmp or FILE.bk is a non-empty directory) makes the run fail, and the state
+   it stops in is a crash point of crash_safe *)
+Theorem failing_op_stops : forall (tmp_of bk_of : path -> path) (f : path) (orig fmt : text),
+  tmp_of f <> f -> bk_of f <> f -> tmp_of f <> bk_of f -> eqb_text orig fmt = false ->
+  forall s0 : fsstate, s0 f = Some (File orig) ->
+  (is_dir s0 (tmp_of f) = true -> run s0 (backup_ops tmp_of bk_of f orig fmt) = None /\
+     exists st, stopped_at s0 (backup_ops tmp_of bk_of f orig fmt) 1 0 false = Some st) /\
+  (is_dir s0 (tmp_of f) = false -> is_dir s0 (bk_of f) = true -> run s0 (backup_ops tmp_of bk_of f orig fmt) = None /\
+     exists st, stopped_at s0 (backup_ops tmp_of bk_of f orig fmt) 2 0 false = Some st).
+Proof. exact failing_op_stops_lemma. Qed.
+Print Assumptions failing_op_stops.
 
 (* unchanged files: no file-system operation, hence no .bk *)
 Theorem unchanged_no_bk : forall (tmp_of bk_of : path -> path) (f : path) (t : text),
@@ -30,21 +46,32 @@ Theorem unchanged_no_bk : forall (tmp_of bk_of : path -> path) (f : path) (t : t
 Proof. exact unchanged_no_ops. Qed.
 Print Assumptions unchanged_no_bk.
 
-(* multi-file runs: rewriting f never touches any path other than f, f.tmp, f.bk — so with distinct stems the
-   files of one run are independent *)
+(* multi-file runs: rewriting f never touches any path other than f, f.tmp, f.bk — whatever the siblings were (a
+   symbolic link is replaced, never written through) — so with distinct stems the files of one run are independent *)
 Theorem others_untouched : forall (tmp_of bk_of : path -> path) (f : path) (orig fmt : text),
   tmp_of f <> f -> tmp_of f <> bk_of f -> eqb_text orig fmt = false ->
-  forall s0 : fsstate, s0 f = Some orig ->
+  forall s0 : fsstate, s0 f = Some (File orig) ->
   forall (n k : nat) (started : bool) (st : fsstate) (q : path),
     q <> f -> q <> tmp_of f -> q <> bk_of f ->
     stopped_at s0 (backup_ops tmp_of bk_of f orig fmt) n k started = Some st -> st q = s0 q.
 Proof. exact others_untouched_lemma. Qed.
 Print Assumptions others_untouched.
 
+(* before the repair (FILE.tmp written without removing it first): a stale FILE.tmp that is a symbolic link to FILE
+   made the run succeed with the original in no file; a link to another file overwrote that file.  The genuine
+   defect repaired in /repo; the same states are safe under the repaired protocol *)
+Theorem symlinked_tmp_pre_refuted :
+  (exists st, run s0_link_self (backup_ops_pre (fun p => (p + 1)%N) (fun p => (p + 2)%N) 1%N [97%N; 98%N] [99%N]) = Some st /\
+              ~ Inv 1%N 3%N [97%N; 98%N] [99%N] st) /\
+  (exists st, run s0_link_other (backup_ops_pre (fun p => (p + 1)%N) (fun p => (p + 2)%N) 1%N [97%N; 98%N] [99%N]) = Some st /\
+              st 9%N <> s0_link_other 9%N).
+Proof. exact (conj pre_repair_symlink_loses_original pre_repair_symlink_touches_other). Qed.
+Print Assumptions symlinked_tmp_pre_refuted.
+
 (* for contrast (not claimed by C20): the plain Files emitter's single write is not crash safe *)
 Theorem plain_files_not_crash_safe_refuted :
   exists (f bk : path) (orig fmt : text) (s0 : fsstate) st,
-    s0 f = Some orig /\ stopped_at s0 (files_ops f orig fmt) 0 1 true = Some st /\ ~ Inv f bk orig fmt st.
+    s0 f = Some (File orig) /\ stopped_at s0 (files_ops f orig fmt) 0 1 true = Some st /\ ~ Inv f bk orig fmt st.
 Proof. exact files_not_crash_safe. Qed.
 Print Assumptions plain_files_not_crash_safe_refuted.
 
